@@ -42,7 +42,15 @@ func propEviction(c *Case) {
 
 	var sysLimit uint64
 
+	// cycles are normally invoked one by one through the VerifCleanup hook (exact instants); with the
+	// REAL janitor the phase of its cycles is not assumed, only that they are one interval apart:
+	// then one idempotent trigger (count limit / unreached limits) and one waiting period are used
+	realJanitor := c.Weighted("cycle-driver", 3, 1) == 1
+
 	trigger := c.Weighted("trigger", 5, 2, 1, 1, 1, 1)
+	if realJanitor && (trigger == 1 || trigger == 2) {
+		trigger = 0
+	}
 
 	switch trigger {
 	case 0:
@@ -66,7 +74,7 @@ func propEviction(c *Case) {
 		}
 	}
 
-	if trigger == 0 && c.Weighted("also", 3, 1) == 1 {
+	if trigger == 0 && !realJanitor && c.Weighted("also", 3, 1) == 1 {
 		useNeeded = true
 	}
 
@@ -81,6 +89,13 @@ func propEviction(c *Case) {
 	}
 
 	cycles := c.Int("cycles", 1, 3)
+	if realJanitor {
+		cycles = 1
+		c.Class("cycles=real-janitor")
+	} else {
+		c.Class("cycles=hook")
+	}
+
 	for i := 0; i < cycles; i++ {
 		needScript = append(needScript, useNeeded && c.Bool("needed"))
 	}
@@ -115,13 +130,19 @@ func propEviction(c *Case) {
 	c.Bubble(func() {
 		tr := newCountTracker()
 		interval := time.Hour
+		jobInterval := interval
+
+		if !realJanitor {
+			jobInterval = 2 * farFuture
+		}
+
 		neededCalls := 0
 		cycle := 0
 
 		cfg := cache.Config{
 			Name: "ev", ItemsCountReportInterval: reportInterval,
 			TimeToLive: cfgTTL, ExpirationJitter: -1,
-			DeleteExpiredJobInterval: interval, DeleteExpiredAfter: farFuture,
+			DeleteExpiredJobInterval: jobInterval, DeleteExpiredAfter: farFuture,
 			CountSoftLimit: limit, HeapInUseSoftLimit: heapLimit, SysMemSoftLimit: sysLimit, EvictFraction: frac, EvictionStrategy: strategy,
 		}
 		if withStats {
@@ -263,7 +284,7 @@ func propEviction(c *Case) {
 			tick := t0.Add(time.Duration(cycle+1) * interval)
 
 			// the population may still change shortly before the cycle (after the last items-count report)
-			if c.Weighted("late-change", 2, 1) == 1 {
+			if !realJanitor && c.Weighted("late-change", 2, 1) == 1 {
 				time.Sleep(time.Until(tick) - 5*time.Minute)
 
 				late := c.Int("late-writes", -3, 6)
@@ -293,15 +314,23 @@ func propEviction(c *Case) {
 				c.Class("population-changed-shortly-before-cycle")
 			}
 
-			time.Sleep(time.Until(tick) - 1)
-			synctest.Wait()
-			c.Assert(be.Len() == len(pop), "evicted-between-ticks", "Len()=%d one ns before the tick, population %d", be.Len(), len(pop))
-
 			evBefore := tr.get("ev", cache.MetricEvict)
 			callsBefore := neededCalls
 
-			time.Sleep(1)
-			synctest.Wait()
+			if realJanitor {
+				// everything above took well under a second of fake time; some cycle of the janitor
+				// lies in every window of one interval
+				time.Sleep(time.Until(tick) + 1)
+				synctest.Wait()
+			} else {
+				// nothing disappears outside cleanup cycles
+				time.Sleep(time.Until(tick) - 1)
+				synctest.Wait()
+				c.Assert(be.Len() == len(pop), "evicted-outside-cycle", "Len()=%d before the cleanup cycle, population %d", be.Len(), len(pop))
+
+				time.Sleep(1)
+				be.Cleanup()
+			}
 
 			// Survivors.
 			kept := map[string]bool{}
